@@ -68,7 +68,7 @@ ImportResult(e) ==
         pre  == e.h \in Slots /\ e.layout \in {"bal", "tri"} /\ e.leaf \in {"raw", "pb"} /\ Sum(sz) = e.L
         obs  == /\ Chk("reader returns the input and its length", e.rb /\ e.rsize = e.L)
                 /\ Chk("VerifyTrickleDagStructure agrees", e.layout = "tri" => e.vt = "")
-        ideal == /\ Chk("layout = documented layout", t = LayoutOf(e.layout, P, meta))
+        ideal == /\ Chk("layout = documented layout", t = LayoutOf(e.layout, P, meta) \/ (e.layout = "bal" /\ t \in BalancedAlso(P, meta)))
                  /\ FileChecks(rec(meta))
                  /\ Chk("reader reports the requested mode/mtime", e.gmode = e.mode /\ e.gmtime = e.mtime)
         \* open finding: balanced + raw leaves + at most one chunk + metadata => bare raw root, metadata lost
